@@ -7,6 +7,7 @@ from .. import core, lmm
 class C15(core.Prop):
     id = "C15"
     drivers = ["lmm_driver"]
+    ready = True
     technique = "stateful property-based testing (Hypothesis) of LMM operation histories; capacity validity predicate evaluated on every solved system"
     sizes = {"quick": 15000, "thorough": 400000}
     rule = ("Hypothesis-generated histories (<=60 ops) of constraint/variable creation, expand (weights 0, <1, 1, >1, repeated), "
